@@ -9,7 +9,7 @@
 (* so that every event is judged); the driver requires that the number of  *)
 (* distinct states equals 1 + K + N, i.e. that every event was evaluated.  *)
 (***************************************************************************)
-EXTENDS TomlPrint, SerdeModel, DepthDef, Containers, Json, IOUtils
+EXTENDS TomlPrint, SerdeModel, DepthDef, Containers, WalkDef, BuildDef, Json, IOUtils
 
 Ev == ndJsonDeserialize(IOEnv.TRACE)
 N == Len(Ev)
@@ -37,19 +37,22 @@ SameF(s, m) ==
 
 KeysOf(es) == [i \in 1..Len(es) |-> es[i].key]
 
-RECURSIVE SameV(_, _, _)
-SameV(s, m, ordered) ==
+\* strict: both sides are shortest round-trip digits of a double (no literal involved): exact equality
+StrictF(s, m) == m.c = s.c /\ m.neg = s.neg /\ m.d = s.d /\ m.e = s.e
+RECURSIVE SameVS(_, _, _, _)
+SameV(s, m, ordered) == SameVS(s, m, ordered, FALSE)
+SameVS(s, m, ordered, strict) ==
   /\ s.k = m.k
   /\ CASE s.k = "s" -> m.v = s.v \/ m.v = s.alt
        [] s.k = "i" -> m.neg = s.neg /\ m.d = s.d
        [] s.k = "b" -> m.v = s.v
-       [] s.k = "f" -> SameF(s, m)
+       [] s.k = "f" -> IF strict THEN StrictF(s, m) ELSE SameF(s, m)
        [] s.k = "dt" -> m.date = s.date /\ m.time = s.time /\ m.off.t = s.off.t /\ m.off.m = s.off.m
-       [] s.k = "a" -> Len(s.v) = Len(m.v) /\ \A i \in 1..Len(s.v) : SameV(s.v[i], m.v[i], ordered)
+       [] s.k = "a" -> Len(s.v) = Len(m.v) /\ \A i \in 1..Len(s.v) : SameVS(s.v[i], m.v[i], ordered, strict)
        [] s.k = "t" ->
             /\ Len(s.v) = Len(m.v)
             /\ \A i \in 1..Len(s.v) : \E j \in 1..Len(m.v) :
-                  m.v[j].key = s.v[i].key /\ SameV(s.v[i].val, m.v[j].val, ordered)
+                  m.v[j].key = s.v[i].key /\ SameVS(s.v[i].val, m.v[j].val, ordered, strict)
             \* source order of keys; the position of a promoted super-table is free (DESIGN.md 3.5)
             /\ ordered =>
                  LET fixed == {s.v[i].key : i \in {x \in 1..Len(s.v) : ~s.v[x].prom}} IN
@@ -403,7 +406,7 @@ CheckSerde(i) ==
           ELSE IF r.res = "err" /\ RootIsStructVariant(e.sdm) THEN TRUE
           ELSE IF r.res = "err" THEN Report(i, "serde-enc-unexpected-error", [route |-> r.route, ty |-> e.ty]) /\ FALSE
           ELSE LET p == ParseDocument(r.text) IN
-               IF p.res = "ok" /\ SameV(exp.v, p.tree, FALSE) THEN TRUE
+               IF p.res = "ok" /\ SameVS(exp.v, p.tree, FALSE, TRUE) THEN TRUE
                ELSE Report(i, "serde-enc-text", [route |-> r.route, text |-> r.text, valid |-> p.res, expected |-> Plain(exp.v)]) /\ FALSE
       decOk(g) ==
           LET r == e.dec[g] IN
@@ -414,12 +417,66 @@ CheckSerde(i) ==
         LET t == e.try_from IN
         IF t.res = "panic" THEN Report(i, "serde-try_from", [why |-> "panic"]) /\ FALSE
         ELSE IF Enc(e.sdm).st # "ok" THEN (IF t.res = "err" THEN TRUE ELSE Report(i, "serde-try_from", [why |-> "unsupported shape accepted"]) /\ FALSE)
-        ELSE IF t.res = "ok" /\ SameV(Enc(e.sdm).v, t.tree, FALSE) THEN TRUE
+        ELSE IF t.res = "ok" /\ SameVS(Enc(e.sdm).v, t.tree, FALSE, TRUE) THEN TRUE
         ELSE Report(i, "serde-try_from", [why |-> "tree", res |-> t.res, expected |-> Plain(Enc(e.sdm).v)]) /\ FALSE
   IN AllTrue({AllTrue({encOk(g) : g \in 1..Len(e.enc)})}
              \cup (IF exp.st = "ok" /\ main.res = "ok"
                    THEN {AllTrue({decOk(g) : g \in 1..Len(e.dec)}), againOk, fixedOk} ELSE {})
              \cup {tfOk})
+
+\* ---- C20: visitor callback logs against Walk.Expected ----
+CallsOf(log) == [j \in 1..Len(log) |-> [kind |-> log[j].kind, path |-> log[j].path]]
+CheckVisit(i) ==
+  LET e == Ev[i]
+      p == ParseDocument(e.text)
+  IN IF p.res # "ok" THEN TRUE
+     ELSE IF e.res # "ok" THEN Report(i, "visit-panic", e.res) /\ FALSE
+     ELSE LET exp == Expected(p.tree)
+              okLog(l) == IF HasPromoted(p.tree) THEN SameBag(exp, CallsOf(l)) ELSE exp = CallsOf(l)
+          IN AllTrue({
+               IF okLog(e.log) THEN TRUE ELSE Report(i, "visit-log", [which |-> "Visit", expected |-> exp]) /\ FALSE,
+               IF okLog(e.logmut) THEN TRUE ELSE Report(i, "visit-log", [which |-> "VisitMut", expected |-> exp]) /\ FALSE,
+               IF e.unchanged THEN TRUE ELSE Report(i, "visit-mut-changed", "a counting VisitMut changed the document") /\ FALSE,
+               LET q == ParseDocument(e.rewritten.integer) IN
+                 IF q.res = "ok" /\ Plain(q.tree) = Rewrite(p.tree, "i", [k |-> "i", neg |-> FALSE, d |-> <<4, 2>>]) THEN TRUE
+                 ELSE Report(i, "visit-rewrite", [kind |-> "integer", text |-> e.rewritten.integer]) /\ FALSE,
+               LET q == ParseDocument(e.rewritten.string) IN
+                 IF q.res = "ok" /\ Plain(q.tree) = Rewrite(p.tree, "s", [k |-> "s", v |-> <<88>>]) THEN TRUE
+                 ELSE Report(i, "visit-rewrite", [kind |-> "string", text |-> e.rewritten.string]) /\ FALSE,
+               LET q == ParseDocument(e.rewritten.float) IN
+                 IF q.res = "ok" /\ Plain(q.tree) = Rewrite(p.tree, "f", [k |-> "f", c |-> "fin", neg |-> FALSE, d |-> <<5>>, e |-> 0 - 1]) THEN TRUE
+                 ELSE Report(i, "visit-rewrite", [kind |-> "float", text |-> e.rewritten.float]) /\ FALSE})
+
+\* ---- C06: documents assembled through the construction API ----
+\* m: expected tree in plain format (from BuildDef.ExpectedTree), s: tree decoded by the specification
+RECURSIVE SameBuilt(_, _, _)
+SameBuilt(s, m, ordered) ==
+  /\ s.k = m.k
+  /\ CASE s.k = "s" -> s.v = m.v
+       [] s.k = "i" -> s.neg = m.neg /\ s.d = m.d
+       [] s.k = "b" -> s.v = m.v
+       \* toml::Value / toml::Table print through the serde serializer, which discards the sign of a NaN (documented)
+       [] s.k = "f" -> s.c = m.c /\ (s.neg = m.neg \/ (~ordered /\ s.c = "nan")) /\ s.d = m.d /\ s.e = m.e
+       [] s.k = "dt" -> s.date = m.date /\ s.time = m.time /\ s.off.t = m.off.t /\ s.off.m = m.off.m
+       [] s.k = "a" -> Len(s.v) = Len(m.v) /\ \A x \in 1..Len(s.v) : SameBuilt(s.v[x], m.v[x], ordered)
+       [] s.k = "t" ->
+            /\ Len(s.v) = Len(m.v)
+            /\ IF ordered THEN \A x \in 1..Len(s.v) : s.v[x].key = m.v[x].key /\ SameBuilt(s.v[x].val, m.v[x].val, ordered)
+               ELSE \A x \in 1..Len(m.v) : \E y \in 1..Len(s.v) : s.v[y].key = m.v[x].key /\ SameBuilt(s.v[y].val, m.v[x].val, ordered)
+CheckBuild(i) ==
+  LET e == Ev[i]
+      exp == ExpectedTree(e.shape)
+  IN AllTrue({
+       LET r == e.r[g] IN
+       IF r.res # "ok" THEN Report(i, "build-panic", [route |-> r.route]) /\ FALSE
+       ELSE LET p == IF r.as_value
+                     THEN (LET w == WholeValue(r.text) IN [res |-> IF w.ok THEN "ok" ELSE "rej", tree |-> w.v, why |-> "value", at |-> 0])
+                     ELSE ParseDocument(r.text) IN
+            AllTrue({
+              IF p.res = "ok" THEN TRUE ELSE Report(i, "build-invalid", [route |-> r.route, text |-> r.text, why |-> p.why, at |-> p.at]) /\ FALSE,
+              IF p.res # "ok" \/ SameBuilt(p.tree, exp, r.ordered) THEN TRUE ELSE Report(i, "build-tree", [route |-> r.route, text |-> r.text, expected |-> exp]) /\ FALSE,
+              IF r.text = r.text2 THEN TRUE ELSE Report(i, "build-nondeterministic", [route |-> r.route]) /\ FALSE})
+       : g \in 1..Len(e.r)})
 
 U1Note(i) == Ev[i].ev = "parse" /\ ParseDocument(Ev[i].text).res = "u1" => PrintT(ToJson([u1 |-> i]))
 
@@ -439,6 +496,8 @@ CheckEvent(i) ==
     [] Ev[i].ev = "depth" -> CheckDepth(i)
     [] Ev[i].ev = "hist" -> CheckHist(i)
     [] Ev[i].ev = "serde" -> CheckSerde(i)
+    [] Ev[i].ev = "visit" -> CheckVisit(i)
+    [] Ev[i].ev = "build" -> CheckBuild(i)
     [] OTHER -> Report(i, "unknown-event", Ev[i].ev) /\ FALSE
 
 Init == lvl = 0 /\ idx = 0
